@@ -5,8 +5,11 @@
 package json
 
 // MarshalCanonical marshals, re-reads and re-marshals through package-level function values
-// (marshalJSONMap, ...) that only the test exports (build tag `testing`) reassign; with the default
-// values it is encoding/json. Its contract is assumed.
+// (marshalJSONMap, ...) that only the test exports (build tag `testing`) reassign; the verifier
+// resolves calls through such initialiser-only function variables to the function literal.
 //@ func MarshalCanonical(v) (ret, err)
 //@   pure
-//@   trusted "encoding/json round trip through package-level function values that are never reassigned in production builds"
+//@   modifies nothing
+
+// the encode/decode hooks are set by the initialiser and (outside the `testing` build tag) never reassigned
+//@ global invariant [hooks] marshalJSONMap != nil && unmarshalJSONMap != nil && unmarshalJSONArray != nil && marshalJSONArray != nil
